@@ -597,7 +597,7 @@ def tol_for(name, dt):
     if name in ("Krum", "TrimmedMean", "Mean", "Sum", "Constant"):
         # selections and fixed-weight averages are exact up to a few ulps of the largest entry; a generic
         # tolerance hides the choice of a different row among rows that lie close together
-        return {"f64": 1e-12, "f32": 5e-6}[dt]
+        return {"f64": 1e-12, "f32": 2e-6}[dt]
     base = {"f64": 1e-7, "f32": 3e-3}[dt]
     if name == "CAGrad":
         base = max(base, 2e-4)
@@ -615,7 +615,9 @@ def compare(name, dt, J, impl, model, scale=None):
         return f"length {len(a)} vs model {len(b)}"
     if not all(math.isfinite(x) for x in a):
         return f"non-finite output {a}"
-    sc = scale if scale is not None else float(maxabs(J)) * max(1, len(J))
+    sel = name in ("Krum", "TrimmedMean", "Mean", "Sum", "Constant")
+    # selections / fixed-weight averages: a few ulps of the LARGEST ENTRY (not m times it), or of the result
+    sc = scale if scale is not None else float(maxabs(J)) * (1 if sel else max(1, len(J)))
     sc = max(sc, max((abs(float(x)) for x in b), default=0.0))
     tol = tol_for(name, dt)
     worst = max((abs(x - float(y)) for x, y in zip(a, b)), default=0.0)
